@@ -1461,9 +1461,10 @@ class ForAll(BinaryOperator):
     @lru_cache(maxsize=None)
     def condition_unique_variable_ids(self) -> List[int]:
         # literals are not variables: whether a row carries the binding of a literal depends on which branch of the
-        # condition (or which cache) produced it, and must not distinguish otherwise equal rows.
+        # condition (or which cache) produced it, and must not distinguish otherwise equal rows. Neither is the result
+        # of a predicate: it is determined by the arguments of the predicate, and differs per universal value.
         return [v.id_ for v in self.condition._unique_variables_.difference(self.left._unique_variables_)
-                if not isinstance(v.value, Literal)]
+                if not isinstance(v.value, Literal) and not getattr(v.value, '_predicate_type_', None)]
 
     def _bind_unbound_condition_variables_(self, binding: Dict[int, HashedValue]) -> Iterable[Dict[int, HashedValue]]:
         """
